@@ -82,11 +82,19 @@ var failClasses = []failClass{
 	// a template run by exec() fails below isset(), which swallows the failure: what is rendered
 	// between that and the failing action still belongs to the streamed prefix (mustFollow)
 	{"unknown-identifier:after-exec-failed-below-isset", `{{ if isset(exec("/zrtfail.jet").X) }}y{{ else }}n{{ end }}vis{{ zzNope }}`, true, false},
+	// a try whose body wrote something and failed, a try that succeeds, then the failing action
+	{"unknown-identifier:after-failed-try-then-successful-try", `{{ try }}hid{{ zzNope }}{{ end }}{{ try }}ok{{ end }}{{ zzNope }}`, true, false},
+	{"unknown-identifier:after-failed-try-with-catch-then-successful-try", `{{ try }}hid{{ zzNope }}{{ catch }}c{{ end }}{{ try }}ok{{ end }}{{ zzNope }}`, true, false},
 	{"unknown-identifier:after-exec-with-context-failed-below-isset", `{{ if isset(exec("/zrtfail.jet", 1).X) }}y{{ else }}n{{ end }}vis{{ zzNope }}`, true, false},
 	// an operand outside the operator's range: integer division and remainder by zero
 	{"operand-range:mod-by-zero:literal", `{{ 7 % 0 }}`, true, true},
 	{"operand-range:div-by-zero:int", `{{ n / zint }}`, true, true},
 	{"operand-range:mod-by-zero:int", `{{ n % zint }}`, true, true},
+	// divisors that are not zero themselves and become zero where the division is made
+	{"operand-range:mod-by-zero:fraction", `{{ n % qf }}`, true, true},
+	{"operand-range:mod-by-zero:string-zero", `{{ n % "0" }}`, true, true},
+	{"operand-range:div-by-zero:string-zero", `{{ n / "0" }}`, true, true},
+	{"operand-range:mod-by-zero:float-left-fraction", `{{ 1.5 % qf }}`, true, true},
 	// the failing action spans several lines: its line is where it begins
 	{"unknown-block:yield-with-content", "{{ yield zzNope() content }}\nyc\n{{ end }}", true, true},
 	{"yield-argument-without-value:with-content", "{{ yield zb(q) content }}\nyc\n{{ end }}", true, true},
@@ -239,8 +247,10 @@ func position(msg string, files []string) (string, int, bool) {
 // mustFollow: classes whose action renders text of its own before it fails: that text must follow
 // what preceded the site, byte for byte
 var mustFollow = map[string]string{
-	"unknown-identifier:after-exec-failed-below-isset":              "nvis",
-	"unknown-identifier:after-exec-with-context-failed-below-isset": "nvis",
+	"unknown-identifier:after-failed-try-then-successful-try":            "ok",
+	"unknown-identifier:after-failed-try-with-catch-then-successful-try": "cok",
+	"unknown-identifier:after-exec-failed-below-isset":                   "nvis",
+	"unknown-identifier:after-exec-with-context-failed-below-isset":      "nvis",
 }
 
 var reToken = regexp.MustCompile(`@@\d+\.\d+@@`)
